@@ -256,6 +256,15 @@ func specLayersOK(p *FrameParser) bool {
 //@ ensures[C08.afp.deadline]  ncalls("(*File).SetReadDeadline") == old(ncalls("(*File).SetReadDeadline")) + 1 && lastarg("(*File).SetReadDeadline", t) == t && ret0 == lastres("(*File).SetReadDeadline", 0)
 //@ modifies nothing
 
+// The poll timeout of the non-Linux capture sources (compiled everywhere): never unbounded, never below 100 ms, and
+// otherwise exactly the time left until the deadline (C08: a read never blocks past the deadline by more than 100 ms).
+//@ func getReadTimeout
+//@ safety C08
+//@ ensures[C08.rt.floor]   ret0 >= 100000000
+//@ ensures[C08.rt.nodeadline] deadline.IsZero() ==> ret0 == 1000000000
+//@ ensures[C08.rt.until]   !deadline.IsZero() ==> ret0 == ite((deadline - now()) < 100000000, 100000000, (deadline - now()))
+//@ modifies ghost clock
+
 //@ func (*sinkLinux).Close
 //@ safety C10
 //@ requires[pre.nonnil]          p != nil && p.sock != nil
